@@ -53,7 +53,7 @@ LEVEL_TEXT = ("Machine-checked proof (Coq 8.16.1) over an executable model of ns
               "are regenerated from the source on every run and tied to the model by proof obligations; the model is tied to the running code by "
               "differential correspondence including consumption over TCP.")
 LEVEL_NOTE = ("Trusted: Coq kernel + vm_compute; gotables; net/http, url.ParseQuery, encoding/json as model inputs; the hand-written router model (validated "
-              "per run on ~650 probes); the verif hook. Partial: text /mpub measures ITS OWN body against max-body-size (1 framing byte per line) while MPUB "
+              "per run on ~450 probes); the verif hook. Partial: text /mpub measures ITS OWN body against max-body-size (1 framing byte per line) while MPUB "
               "measures its binary body (4 + 4 per message), so outside the region where both fit the two may accept different batches - proved as "
               "C10_text_gap_count / _blank_lines / _empty_batch (a text body without a non-empty line is 200 with an empty batch, where MPUB count 0 is "
               "E_BAD_BODY); the property's equivalence is about what is enqueued under the same per-message limit, and the difference is only in how the "
@@ -66,8 +66,8 @@ SEARCH_SCALE = 4
 
 def drivers():
     def args(tier, seed, scale):
-        n = (180 if tier == "quick" else 2500) * scale
-        routes = (520 if tier == "quick" else 4000) * scale
+        n = (160 if tier == "quick" else 2500) * scale
+        routes = (450 if tier == "quick" else 4000) * scale
         hostile = 4 if tier == "quick" else 12
         return ["-n", str(n), "-routes", str(routes), "-hostile", str(hostile), "-seed", str(seed)]
     return [{"driver": "httpdrive", "args": args, "replay_args": lambda tier: []}]
